@@ -9,19 +9,19 @@ open CprocVerif.Init CprocVerif.Image CprocVerif.InitRef
 
 /-- `advance` from a finished sub-object to the next sub-object of slot `k` -/
 theorem advance_to_next {st stp : St} {k f : Nat} {pl ch ch' : Place} {pos : Nat}
-    (hk : k < st.sub) (hp : Plain st) (hw : PlWf pl) (hl : Lvl st k pl pos ch)
+    (hk : k < st.sub) (hp : Flat st k) (hw : PlWf pl) (hl : Lvl st k pl pos ch)
     (hex : ∀ j, k < j → j < st.sub → Exh st j) (hc : childAt pl (pos + 1) true = some ch')
     (e : advance f st = .ok stp) :
     stp.sub = k + 1 ∧ Lvl stp k pl (pos + 1) ch' ∧ SP stp (k + 1) ch' ∧ Frame k st stp ∧ stp.log = st.log ∧
-      (stp.obj k).iscur = (st.obj k).iscur ∧ (stp.obj (k + 1)).iscur = false ∧ Plain stp := by
-  obtain ⟨f1, st1, e1, hs1, hf1, hl1, hp1⟩ := advance_pops (st.sub - (k + 1)) (k := k) (by omega) hp hex e
+      (stp.obj k).iscur = (st.obj k).iscur ∧ (stp.obj (k + 1)).iscur = false := by
+  obtain ⟨f1, st1, e1, hs1, hf1, hl1⟩ := advance_pops (st.sub - (k + 1)) (k := k) (by omega) hex e
+  have hp1 : Flat st1 k := hp.frame (hf1.mono (Nat.le_succ _)) (by rw [hf1.low k (Nat.lt_succ_self _)])
   cases f1 with
   | zero => rw [advance] at e1; cases e1
   | succ f1 =>
     obtain ⟨h1, h2, h3, h4, h5, h6, h7⟩ := advance_step hs1 hp1 hw (hl.frame hf1 (Nat.lt_succ_self _)) hc e1
     have hfr : Frame k st stp := (hf1.mono (Nat.le_succ _)).trans h4 (Nat.le_refl _)
-    refine ⟨h1, h2, h3, hfr, by rw [h5, hl1], by rw [h6, hf1.low k (Nat.lt_succ_self _)], h7, ?_⟩
-    exact hfr.plain' hp (by rw [h2.ty, hl.ty])
+    exact ⟨h1, h2, h3, hfr, by rw [h5, hl1], by rw [h6, hf1.low k (Nat.lt_succ_self _)], h7⟩
 
 theorem bodyRun_of_itemBody {st sta : St} {i : Ini} (h : itemBody st i = .ok sta) : BodyRun 34 st i sta := by
   cases i <;> exact h
@@ -54,43 +54,43 @@ theorem preStep_nil_scalar {st : St} {c : Nat} {n : Nat} {k : SK} (hc : st.cur =
 theorem child_item {f : Nat} (ihI : PInit f) {pl ch : Place} {i : Ini} {rest rest1 : Items} {rst rst1 : RSt} {pos : Nat}
     (hi : initOne f ch i rest (grow (enter rst pl pos) pl pos) = .ok (rest1, rst1))
     (e1 : (enter rst pl pos).nswitch = rst.nswitch) (e2 : rst1.nswitch = (grow (enter rst pl pos) pl pos).nswitch)
-    (hw : PlWf pl) (hoi : okI i = true) (hor : okIs rest = true)
+    (hw : PlWf pl)
     {st stp sta stf : St} {c k pf : Nat} (hcur : st.cur = some c) (hck : c ≤ k) (hco : CurOK st) (hk : k ≤ st.sub)
     (hfresh : c < k → (st.obj k).iscur = false) (hsub : stp.sub = k + 1) (hl : Lvl stp k pl pos ch)
     (hsp : SP stp (k + 1) ch) (hf : Frame k st stp) (hlog : stp.log = st.log)
-    (hic : (stp.obj k).iscur = (st.obj k).iscur) (hic' : (stp.obj (k + 1)).iscur = false) (hpp : Plain stp)
+    (hic : (stp.obj k).iscur = (st.obj k).iscur) (hic' : (stp.obj (k + 1)).iscur = false)
     (hle : LogEq st rst) (hb : BodyRun pf stp i sta) (hrun : Run sta rest stf) :
     ∃ st3, Run st3 rest1 stf ∧ After (k + 1) stp st3 rest1 ∧ LogEq st3 rst1 ∧ Lvl st3 k pl pos ch ∧ Frame k st st3 := by
   have hwc : PlWf ch := childAt_wf hw hl.child
   have hcop : CurOK stp := curOK_step hco hcur hck hk hf hic hsub hfresh
-  obtain ⟨st3, hrun3, haf3, hle3⟩ := ihI ch i rest _ rest1 rst1 hi e2 hwc hoi hor stp sta stf pf c
-    (by rw [hf.cur]; exact hcur) (by rw [hsub]; omega) hpp hcop (by rw [hsub]; exact hic')
+  obtain ⟨st3, hrun3, haf3, hle3⟩ := ihI ch i rest _ rest1 rst1 hi e2 hwc stp sta stf pf c
+    (by rw [hf.cur]; exact hcur) (by rw [hsub]; omega) hcop (by rw [hsub]; exact hic')
     (by rw [hsub]; exact hsp) (by unfold LogEq; rw [hlog, grow_log, enter_log e1]; exact hle) hb hrun
   rw [hsub] at haf3
   exact ⟨st3, hrun3, haf3, hle3, hl.frame haf3.frame (Nat.lt_succ_self _),
     hf.trans (haf3.frame.mono (Nat.le_succ _)) (Nat.le_refl _)⟩
 
-theorem okIs_cons {ds : List Desig} {i : Ini} {rest : Items} (h : okIs (.cons ds i rest) = true) :
-    ds = [] ∧ okI i = true ∧ okIs rest = true := by
-  simp only [okIs, Bool.and_eq_true, List.isEmpty_iff] at h
-  exact ⟨h.1.1, h.1.2, h.2⟩
-
 theorem pCont_step (f : Nat) (ih : ∀ f', f' < f → PAll f') : PCont f := by
-  intro pl pos its rst rest' rst' hr hn hw hoi st stf k c ch hcur hck hks hp hco hl hex hle hrun
+  intro pl pos its rst rest' rst' hr hn hw st stf k c ch hcur hck hks hco hl hex hle hrun
   cases f with
   | zero => rw [contAgg.eq_1] at hr; cases hr
   | succ f =>
   cases its with
   | nil =>
     rw [contAgg.eq_2] at hr; cases hr
-    exact ⟨st, hrun, ⟨Frame.refl _ _, Nat.le_of_lt hks, hp, hco, rfl, rfl, fun hh => absurd hh headPlain_nil⟩, hks, hle⟩
+    exact ⟨st, hrun, ⟨Frame.refl _ _, Nat.le_of_lt hks, hco, rfl, rfl, fun hh => absurd hh headPlain_nil⟩, hks, hle⟩
   | cons ds i rest =>
-    obtain ⟨rfl, hoi1, hor⟩ := okIs_cons hoi
+    cases ds with
+    | cons d ds =>
+      rw [contAgg.eq_3] at hr; cases hr
+      exact ⟨st, hrun, ⟨Frame.refl _ _, Nat.le_of_lt hks, hco, rfl, rfl,
+        fun hh => by obtain ⟨_, _, h⟩ := hh; cases h⟩, hks, hle⟩
+    | nil =>
     rw [contAgg.eq_4] at hr
     cases hc : childAt pl (pos + 1) true with
     | none =>
       rw [hc] at hr; cases hr
-      refine ⟨st, hrun, ⟨Frame.refl _ _, Nat.le_of_lt hks, hp, hco, rfl, rfl, ?_⟩, hks, hle⟩
+      refine ⟨st, hrun, ⟨Frame.refl _ _, Nat.le_of_lt hks, hco, rfl, rfl, ?_⟩, hks, hle⟩
       intro hh j h1 h2
       by_cases hjk : j = k
       · subst hjk; exact ⟨pl, pos, ch, hw, hl, hc⟩
@@ -114,19 +114,17 @@ theorem pCont_step (f : Nat) (ih : ∀ f', f' < f → PAll f') : PCont f := by
       have e3 : rst'.nswitch = rst1.nswitch := by omega
       obtain ⟨stp, sta, hpre, hbody, hrun2⟩ := run_cons hrun
       rw [preStep_nil_adv hcur (by omega)] at hpre
-      obtain ⟨h1, h2, h3, h4, h5, h6, h7, h8⟩ :=
-        advance_to_next hks hp hw hl (hex ⟨i, rest, rfl⟩) hc hpre
+      obtain ⟨h1, h2, h3, h4, h5, h6, h7⟩ :=
+        advance_to_next hks (flat_pos st (by omega)) hw hl (hex ⟨i, rest, rfl⟩) hc hpre
       have hick : (st.obj k).iscur = false := by
         unfold CurOK at hco; rw [hcur] at hco; exact hco.2.2 k hck hks
-      obtain ⟨st3, hrun3, haf3, hle3, hl3, hf3⟩ := child_item (ih f (Nat.lt_succ_self _)).1 hi e1 e2 hw hoi1 hor
-        hcur (Nat.le_of_lt hck) hco (Nat.le_of_lt hks) (fun _ => hick) h1 h2 h3 h4 h5 h6 h7 h8 hle
+      obtain ⟨st3, hrun3, haf3, hle3, hl3, hf3⟩ := child_item (ih f (Nat.lt_succ_self _)).1 hi e1 e2 hw
+        hcur (Nat.le_of_lt hck) hco (Nat.le_of_lt hks) (fun _ => hick) h1 h2 h3 h4 h5 h6 h7 hle
         (bodyRun_of_itemBody hbody) hrun2
-      have hsuf := (suff_all f).1 _ _ _ _ _ hi
-      have hor1 : okIs rest1 = true := okIs_suff hsuf (by simp [okIs, hoi1, hor])
-      obtain ⟨st', hrun', haf', hlt', hle'⟩ := (ih f (Nat.lt_succ_self _)).2.1 pl (pos + 1) rest1 rst1 rest' rst' hr e3 hw hor1
+      obtain ⟨st', hrun', haf', hlt', hle'⟩ := (ih f (Nat.lt_succ_self _)).2.1 pl (pos + 1) rest1 rst1 rest' rst' hr e3 hw
         st3 stf k c ch' (by rw [hf3.cur]; exact hcur) hck (by have := haf3.le; omega)
-        haf3.plain haf3.curok hl3 (fun hh j h1 h2 => haf3.exh hh j (by omega) h2) hle3 hrun3
-      refine ⟨st', hrun', ⟨hf3.trans haf'.frame (Nat.le_refl _), haf'.le, haf'.plain, haf'.curok, ?_, ?_, haf'.exh⟩, hlt', hle'⟩
+        haf3.curok hl3 (fun hh j h1 h2 => haf3.exh hh j (by omega) h2) hle3 hrun3
+      refine ⟨st', hrun', ⟨hf3.trans haf'.frame (Nat.le_refl _), haf'.le, haf'.curok, ?_, ?_, haf'.exh⟩, hlt', hle'⟩
       · rw [haf'.ty, hl3.ty, hl.ty]
       · rw [haf'.off, hl3.off, hl.off]
 
